@@ -4,6 +4,7 @@ package main
 
 import (
 	"fmt"
+	"hash/fnv"
 	"go/ast"
 	"go/constant"
 	"go/token"
@@ -19,6 +20,7 @@ const (
 	lvCell    // heap cell: comp base + index terms
 	lvObject  // object-typed location identified by its address
 	lvArrElem // element of an array-typed location
+	lvLocalMap // entry of an owned local map
 	lvUnknown
 )
 
@@ -290,6 +292,15 @@ func (fv *FV) loadCell(e *Env, comp string, t types.Type, sortHint string, idx .
 	v := fv.loadComp(e, comp, s, idx...)
 	if fv.spec == nil && t != nil {
 		fv.assume(e, rangeFact(v, t))
+	}
+	if fv.spec == nil && s == sRef {
+		// anything stored in the heap was allocated before; a component that is
+		// still at its entry version only holds references allocated at entry
+		al := e.alloc
+		if _, changed := e.heap[comp]; !changed && e.epoch == 0 && fv.entry != nil {
+			al = fv.entry.alloc
+		}
+		fv.assume(e, or(eq(v, tNull), sel(al, fv.rootOf(v))))
 	}
 	return Value{K: kScalar, T: v, Type: t}
 }
@@ -935,6 +946,11 @@ func (fv *FV) index(e *Env, x *ast.IndexExpr) Value {
 		return fv.expr(e, x.X)
 	}
 	bt := fv.typeOf(x.X)
+	if lm, ok := fv.localMapOf(e, x.X); ok {
+		k := fv.expr(e, x.Index)
+		v, _ := fv.localMapLoad(lm, bt.Underlying().(*types.Map), k.T)
+		return v
+	}
 	if bt != nil && fv.isGhostMapExpr(x.X) {
 		m := fv.expr(e, x.X)
 		k := fv.expr(e, x.Index)
@@ -1052,6 +1068,9 @@ func (fv *FV) sliceExpr(e *Env, x *ast.SliceExpr) Value {
 func (fv *FV) arrayAsSlice(e *Env, x ast.Expr, at *types.Array) Value {
 	v := fv.expr(e, x)
 	es := elemSortOf(at.Elem())
+	if v.T.Sort == sBlob {
+		v.T = app(arrSort(sInt, sInt), "blob_arr", v.T)
+	}
 	if v.T.Sort != arrSort(sInt, es) {
 		return fv.freshValue(types.NewSlice(at.Elem()), "arrslice")
 	}
@@ -1158,6 +1177,11 @@ func (fv *FV) lvalue(e *Env, x ast.Expr) LV {
 			}
 			return LV{kind: lvCell, comp: "E$" + sanitize(elemKey(u.Elem())), idx: []Term{s.T, pos}, typ: u.Elem()}
 		case *types.Map:
+			if _, ok := fv.localMapOf(e, x.X); ok {
+				k := fv.expr(e, x.Index)
+				id := ast.Unparen(x.X).(*ast.Ident)
+				return LV{kind: lvLocalMap, obj: fv.info.ObjectOf(id), elemI: k.T, typ: u.Elem(), inner: &LV{typ: bt}}
+			}
 			m := fv.expr(e, x.X)
 			k := fv.expr(e, x.Index)
 			return LV{kind: lvCell, comp: mapValComp(u), idx: []Term{m.T, fv.mapKey(k)}, typ: u.Elem(), obj: nil, inner: &LV{typ: bt}}
@@ -1180,6 +1204,9 @@ func (fv *FV) lvalue(e *Env, x ast.Expr) LV {
 }
 
 func (fv *FV) nilCheck(e *Env, at ast.Node, p Term) {
+	if at == nil {
+		at = &ast.Ident{}
+	}
 	if fv.spec != nil || p.Sort != sRef {
 		return
 	}
@@ -1201,7 +1228,7 @@ func (fv *FV) load(e *Env, lv LV) Value {
 		if lv.inner != nil && len(lv.idx) == 2 && strings.HasPrefix(lv.comp, "MV$") {
 			// map element read through an lvalue
 			mt := lv.inner.typ.Underlying().(*types.Map)
-			present := sel(sel(fv.heapGet(e, mapDomComp(mt), cellSort([]string{sRef, lv.idx[1].Sort}, sBool)), lv.idx[0]), lv.idx[1])
+			present := and(not(eq(lv.idx[0], tNull)), sel(sel(fv.heapGet(e, mapDomComp(mt), cellSort([]string{sRef, lv.idx[1].Sort}, sBool)), lv.idx[0]), lv.idx[1]))
 			v := fv.loadCell(e, lv.comp, lv.typ, "", lv.idx...)
 			z := fv.zeroValue(e, lv.typ)
 			if v.K == kScalar && z.T.Sort == v.T.Sort {
@@ -1215,9 +1242,17 @@ func (fv *FV) load(e *Env, lv LV) Value {
 		return fv.loadCell(e, lv.comp, lv.typ, "", lv.idx...)
 	case lvObject:
 		return Value{K: kScalar, T: lv.addr, Type: lv.typ}
+	case lvLocalMap:
+		if m, ok := fv.lookup(e, lv.obj); ok && m.K == kMap {
+			v, _ := fv.localMapLoad(m, lv.inner.typ.Underlying().(*types.Map), lv.elemI)
+			return v
+		}
 	case lvArrElem:
 		arr := fv.load(e, *lv.inner)
 		_, es := sortOf(lv.typ)
+		if arr.T.Sort == sBlob {
+			return Value{K: kScalar, T: app(sInt, "blob_at", arr.T, lv.elemI), Type: lv.typ}
+		}
 		if arr.T.Sort == arrSort(sInt, es) {
 			v := sel(arr.T, lv.elemI)
 			if fv.spec == nil {
@@ -1236,6 +1271,18 @@ func (fv *FV) storeLV(e *Env, lv LV, v Value) {
 	switch lv.kind {
 	case lvBlank:
 	case lvVar:
+		if fv.localMaps[lv.obj] {
+			if v.K != kMap {
+				mt := lv.typ.Underlying().(*types.Map)
+				if fv.freshMapRefs[v.T.S] {
+					v = fv.emptyLocalMap(mt)
+				} else {
+					v = fv.freshLocalMap(mt, lv.obj.Name())
+				}
+			}
+			e.vars[lv.obj] = v
+			return
+		}
 		if isObjectType(lv.typ) {
 			// struct assignment to a local: copy into the local's object
 			if cur, ok := e.vars[lv.obj]; ok {
@@ -1255,6 +1302,11 @@ func (fv *FV) storeLV(e *Env, lv LV, v Value) {
 		if k == kSlice && v.K != kSlice {
 			v = fv.freshValue(lv.typ, "sl")
 		}
+		if v.K == kScalar && len(v.T.S) > 48 {
+			n := fv.s.freshConst(lv.obj.Name(), v.T.Sort)
+			fv.s.assume(eq(n, v.T))
+			v.T = n
+		}
 		e.vars[lv.obj] = v
 	case lvCell:
 		if lv.inner != nil && strings.HasPrefix(lv.comp, "MV$") {
@@ -1268,9 +1320,28 @@ func (fv *FV) storeLV(e *Env, lv LV, v Value) {
 		fv.storeCell(e, lv.comp, lv.typ, "", v, lv.idx...)
 	case lvObject:
 		fv.copyObject(e, lv.addr, v.T, lv.typ)
+	case lvLocalMap:
+		if m, ok := e.vars[lv.obj]; ok && m.K == kMap {
+			present := sel(m.T, lv.elemI)
+			_, es := arrParts(m.Off.Sort)
+			if v.T.Sort != es {
+				v = fv.coerce(v, es)
+			}
+			nm := m
+			nm.Len = fv.nameIfBig("len", ite(present, m.Len, add(m.Len, intLit(1))))
+			nm.T = fv.nameIfBig("dom", store(m.T, lv.elemI, tTrue))
+			nm.Off = fv.nameIfBig("val", store(m.Off, lv.elemI, v.T))
+			e.vars[lv.obj] = nm
+			return
+		}
+		fv.note("store to local map in unexpected state")
 	case lvArrElem:
 		arr := fv.load(e, *lv.inner)
 		_, es := sortOf(lv.typ)
+		if arr.T.Sort == sBlob && v.T.Sort == sInt {
+			fv.storeLV(e, *lv.inner, Value{K: kScalar, T: app(sBlob, "blob_set", arr.T, lv.elemI, v.T), Type: lv.inner.typ})
+			return
+		}
 		if arr.T.Sort == arrSort(sInt, es) && v.T.Sort == es {
 			fv.storeLV(e, *lv.inner, Value{K: kScalar, T: store(arr.T, lv.elemI, v.T), Type: lv.inner.typ})
 			return
@@ -1305,7 +1376,7 @@ func (fv *FV) mapLen(e *Env, m Term) Term {
 
 // mapLoad returns (value or zero, present).
 func (fv *FV) mapLoad(e *Env, m Value, mt *types.Map, k Value) (Value, Term) {
-	present := sel(fv.mapDom(e, m.T, mt), k.T)
+	present := and(not(eq(m.T, tNull)), sel(fv.mapDom(e, m.T, mt), k.T))
 	if isObjectType(mt.Elem()) {
 		v := fv.loadCell(e, mapValComp(mt), nil, sRef, m.T, k.T)
 		v.Type = mt.Elem()
@@ -1325,6 +1396,7 @@ func (fv *FV) mapStore(e *Env, m Term, mt *types.Map, k Term, v Value) {
 	if e.dead {
 		return
 	}
+	fv.nilCheck(e, nil, m) // assignment to an entry of a nil map panics
 	ks := mapKeySort(mt)
 	domSort := cellSort([]string{sRef, ks}, sBool)
 	dom := fv.heapGet(e, mapDomComp(mt), domSort)
@@ -1421,6 +1493,9 @@ func (fv *FV) composite(e *Env, x *ast.CompositeLit) Value {
 	case *types.Map:
 		r := fv.allocRef(e, "mlit")
 		fv.initEmptyMap(e, r, u)
+		if len(x.Elts) == 0 {
+			fv.freshMapRefs[r.S] = true
+		}
 		for _, el := range x.Elts {
 			if kv, ok := el.(*ast.KeyValueExpr); ok {
 				k := fv.expr(e, kv.Key)
@@ -1431,6 +1506,20 @@ func (fv *FV) composite(e *Env, x *ast.CompositeLit) Value {
 		return Value{K: kScalar, T: r, Type: t}
 	case *types.Array:
 		_, s := sortOf(bt)
+		if s == sBlob {
+			cur := Term{"blob_zero", sBlob}
+			for i, el := range x.Elts {
+				if _, ok := el.(*ast.KeyValueExpr); ok {
+					return fv.unknown(t, "keyed array literal")
+				}
+				v := fv.expr(e, el)
+				if v.T.Sort != sInt {
+					return fv.unknown(t, "array literal element")
+				}
+				cur = app(sBlob, "blob_set", cur, intLit(int64(i)), v.T)
+			}
+			return Value{K: kScalar, T: cur, Type: t}
+		}
 		if strings.HasPrefix(s, "(Array ") {
 			_, es := arrParts(s)
 			cur := zeroTerm(s)
@@ -1465,13 +1554,10 @@ func (fv *FV) initEmptyMap(e *Env, r Term, mt *types.Map) {
 
 // dynType is the dynamic type tag of an interface value.
 func (fv *FV) dynTag(t types.Type) Term {
-	key := typeStr(t)
-	if n, ok := fv.eng.typeTags[key]; ok {
-		return intLit(int64(n))
-	}
-	n := len(fv.eng.typeTags) + 1
-	fv.eng.typeTags[key] = n
-	return intLit(int64(n))
+	// stable tag: FNV-1a of the type string (no shared state between functions)
+	h := fnv.New32a()
+	h.Write([]byte(typeStr(t)))
+	return intLit(int64(h.Sum32()) + 1)
 }
 
 func (fv *FV) dynOf(r Term) Term {
@@ -1504,4 +1590,171 @@ func (fv *FV) typeAssert(e *Env, v Value, target types.Type, at ast.Node, commaO
 		fv.assume(e, okT)
 	}
 	return Value{K: kTuple, Tuple: []Value{out, {K: kScalar, T: okT}}}
+}
+
+// ---------------------------------------------------------------------------
+// Owned local maps: a map created in the function and used only through
+// indexing, len, delete and range is a pure value (domain, values, size).
+
+func (fv *FV) nameIfBig(base string, t Term) Term {
+	if len(t.S) < 64 {
+		return t
+	}
+	n := fv.s.freshConst(base, t.Sort)
+	fv.s.assume(eq(n, t))
+	return n
+}
+
+func (fv *FV) localMapOf(e *Env, x ast.Expr) (Value, bool) {
+	id, ok := ast.Unparen(x).(*ast.Ident)
+	if !ok {
+		return Value{}, false
+	}
+	o := fv.info.ObjectOf(id)
+	if o == nil || !fv.localMaps[o] {
+		return Value{}, false
+	}
+	v, ok := fv.lookup(e, o)
+	if !ok || v.K != kMap {
+		return Value{}, false
+	}
+	return v, true
+}
+
+func (fv *FV) emptyLocalMap(mt *types.Map) Value {
+	ks := mapKeySort(mt)
+	es := elemSortOf(mt.Elem())
+	ds, vs := arrSort(ks, sBool), arrSort(ks, es)
+	return Value{K: kMap, T: Term{fmt.Sprintf("((as const %s) false)", ds), ds}, Off: Term{fmt.Sprintf("((as const %s) %s)", vs, fv.zero(es).S), vs}, Len: intLit(0), Type: mt}
+}
+
+func (fv *FV) freshLocalMap(mt *types.Map, base string) Value {
+	ks := mapKeySort(mt)
+	es := elemSortOf(mt.Elem())
+	v := Value{K: kMap, T: fv.s.freshConst(base+".dom", arrSort(ks, sBool)), Off: fv.s.freshConst(base+".val", arrSort(ks, es)), Len: fv.s.freshConst(base+".len", sInt), Type: mt}
+	fv.s.assume(le(intLit(0), v.Len))
+	fv.localMapCardFacts(&Env{pc: tTrue}, v)
+	return v
+}
+
+func (fv *FV) localMapLoad(m Value, mt *types.Map, k Term) (Value, Term) {
+	present := sel(m.T, k)
+	_, es := arrParts(m.Off.Sort)
+	v := ite(present, sel(m.Off, k), fv.zero(es))
+	return Value{K: kScalar, T: v, Type: mt.Elem()}, present
+}
+
+func (fv *FV) localMapCardFacts(e *Env, m Value) {
+	ks, _ := arrParts(m.T.Sort)
+	dom, l := m.T, m.Len
+	fv.assume(e, Term{fmt.Sprintf("(=> (<= %s 0) (forall ((k %s)) (! (not (select %s k)) :pattern ((select %s k)))))", l.S, ks, dom.S, dom.S), sBool})
+	fv.assume(e, Term{fmt.Sprintf("(=> (<= %s 1) (forall ((a %s) (b %s)) (! (=> (and (select %s a) (select %s b)) (= a b)) :pattern ((select %s a) (select %s b)))))", l.S, ks, ks, dom.S, dom.S, dom.S, dom.S), sBool})
+	fv.assume(e, Term{fmt.Sprintf("(forall ((a %s) (b %s)) (! (=> (and (select %s a) (select %s b) (not (= a b))) (>= %s 2)) :pattern ((select %s a) (select %s b))))", ks, ks, dom.S, dom.S, l.S, dom.S, dom.S), sBool})
+	fv.assume(e, Term{fmt.Sprintf("(forall ((a %s)) (! (=> (select %s a) (>= %s 1)) :pattern ((select %s a))))", ks, dom.S, l.S, dom.S), sBool})
+	fv.trustedUsed["Go map: len(m) is the cardinality of its key set (consequences for len<=0, len<=1, len>=2 assumed)"] = true
+}
+
+// findLocalMaps marks map-typed locals that never escape.
+func (fv *FV) findLocalMaps(body *ast.BlockStmt) {
+	cand := map[types.Object]bool{}
+	bad := map[types.Object]bool{}
+	var stack []ast.Node
+	ast.Inspect(body, func(n ast.Node) bool {
+		if n == nil {
+			stack = stack[:len(stack)-1]
+			return true
+		}
+		defer func() { stack = append(stack, n) }()
+		id, ok := n.(*ast.Ident)
+		if !ok {
+			return true
+		}
+		o, ok := fv.info.ObjectOf(id).(*types.Var)
+		if !ok || isPkgLevel(o) || o.IsField() {
+			return true
+		}
+		mt, ok := o.Type().Underlying().(*types.Map)
+		if !ok {
+			return true
+		}
+		if k, _ := sortOf(mt.Elem()); k != kScalar || isObjectType(mt.Elem()) {
+			return true
+		}
+		// parameters and results escape by definition
+		sig := fv.u.Fn.Type().(*types.Signature)
+		for i := 0; i < sig.Params().Len(); i++ {
+			if sig.Params().At(i) == o {
+				bad[o] = true
+			}
+		}
+		for i := 0; i < sig.Results().Len(); i++ {
+			if sig.Results().At(i) == o {
+				bad[o] = true
+			}
+		}
+		cand[o] = true
+		if len(stack) == 0 {
+			bad[o] = true
+			return true
+		}
+		parent := stack[len(stack)-1]
+		switch p := parent.(type) {
+		case *ast.IndexExpr:
+			if p.X != id {
+				bad[o] = true
+			}
+		case *ast.RangeStmt:
+			if p.X != id {
+				bad[o] = true
+			}
+		case *ast.CallExpr:
+			fn, isId := p.Fun.(*ast.Ident)
+			if !isId || (fn.Name != "len" && fn.Name != "delete") || len(p.Args) == 0 || p.Args[0] != id {
+				bad[o] = true
+			} else if _, isB := fv.info.Uses[fn].(*types.Builtin); !isB {
+				bad[o] = true
+			}
+		case *ast.AssignStmt:
+			okInit := false
+			for i, l := range p.Lhs {
+				if l == id && i < len(p.Rhs) && len(p.Lhs) == len(p.Rhs) && isMapInit(p.Rhs[i]) {
+					okInit = true
+				}
+			}
+			if !okInit {
+				bad[o] = true
+			}
+		case *ast.ValueSpec:
+			okInit := false
+			for i, nm := range p.Names {
+				if nm == id && (len(p.Values) == 0 || (i < len(p.Values) && isMapInit(p.Values[i]))) {
+					okInit = true
+				}
+			}
+			if !okInit {
+				bad[o] = true
+			}
+		default:
+			bad[o] = true
+		}
+		return true
+	})
+	for o := range cand {
+		if !bad[o] {
+			fv.localMaps[o] = true
+		}
+	}
+}
+
+func isMapInit(x ast.Expr) bool {
+	x = ast.Unparen(x)
+	switch y := x.(type) {
+	case *ast.CallExpr:
+		if id, ok := y.Fun.(*ast.Ident); ok && id.Name == "make" {
+			return true
+		}
+	case *ast.CompositeLit:
+		return true
+	}
+	return false
 }
